@@ -504,10 +504,21 @@ def confirm_recreate(ck, pr=None):
     want = '4e5a4d410002424348000000' + '0100' + '0000' + '00' * 56
     bad = []
     outs = {}
-    for garbage in ('', 'deadbeef00112233', 'ab' * 72, 'cd' * 73, '11' * 200, '4e5a4d4100024243800000000000000000' + '77' * 111):
+    import struct
+    hdr = lambda seg, ver, gen: struct.pack('<IIIHH', MAGIC0, MAGIC1, seg, ver, gen).hex()
+    # every class of unusable content: empty, truncated, garbage, over-long, and headers that look alive (right magic, version and
+    # generation set) but declare a size too small for header + record (the readers call those malformed)
+    files = ['', 'deadbeef00112233', 'ab' * 72, 'cd' * 73, '11' * 200, '4e5a4d4100024243800000000000000000' + '77' * 111,
+             hdr(40, 1, 2) + '00' * 56, hdr(0, 1, 2) + '00' * 56, hdr(71, 1, 6) + '33' * 84, hdr(16, 1, 2), hdr(72, 0, 2) + '00' * 56, hdr(72, 1, 0) + '00' * 56, hdr(72, 1, 2)[:20]]
+    for garbage in files:
         out = rp.ask('recreate ' + garbage)
-        outs[len(garbage) // 2] = out
+        outs[len(outs)] = out
         f = dict(x.split('=', 1) for x in out.split()[1:] if '=' in x) if out.startswith('ok') else {}
+        if out.startswith('err') or out.startswith('panic'):
+            bad.append('over an unusable file of %d bytes (%s...) the daemon\'s ShmWriter::new does not repair the segment, it fails: %s' % (len(garbage) // 2, garbage[:32], out[:100]))
+            if out.startswith('panic'):
+                rp.close(); rp = common.Replay('debug')
+            continue
         if not f.get('bytes') and 'len' in f and f['len'] == '0':
             f['bytes'] = ''
         if 'bytes' in f and f['bytes'] != want:
